@@ -1096,6 +1096,23 @@ class Interp:
             if name == "shape":
                 return (Sym(z3.Int("nrows"), "int"),) * obj.lead + (len(obj.values),)
             raise Unsupported(f"attribute {name} of a row-array")
+        if isinstance(obj, self.ext.Arr):
+            if name == "astype":
+                def astype(I, args, kw, _a=obj):
+                    t = args[0] if args else kw.get("dtype")
+                    if t is int or getattr(t, "name", None) in ("int", "int64", "int32"):
+                        # truncation toward zero, element by element (numpy semantics of float -> int)
+                        return I.ext.Arr(I.ext.to_int(I, x) for x in _a.items)
+                    if t is float or getattr(t, "name", None) in ("float", "float64", "float32"):
+                        return I.ext.Arr(I.ext.to_float(I, x) for x in _a.items)
+                    raise Unsupported("astype to an unmodelled dtype")
+
+                return ExternalFn("Arr.astype", astype)
+            if name == "shape":
+                return (len(obj.items),)
+            if name == "ndim":
+                return 1
+            raise Unsupported(f"attribute {name} of Arr")
         if isinstance(obj, Opaque):
             return self.ext.opaque_attr(self, obj, name)
         if isinstance(obj, SymC):
